@@ -24,6 +24,7 @@ import ProfiVerif.Lemmas.DpLiveMaster
 import ProfiVerif.Lemmas.DpLiveMasterRun
 import ProfiVerif.Lemmas.DpLiveNRun
 import ProfiVerif.Lemmas.DpLiveMismatch
+import ProfiVerif.Lemmas.DpLiveMismatch2
 
 namespace PV.C07
 open PV PV.Dp PV.Live
@@ -456,6 +457,18 @@ theorem mismatch_round {j : PJ} (hm : CfgMismatch j) (hp : Probing j) :
   obtain ⟨j4, v4, m4, _, p4⟩ := cfgm_validate m3 a3 b3 c3 d3 e3
   exact ⟨j1, j2, j3, j4, v1, a1, v2, a2, d2, v3, a3, d3, e3, v4, m4, p4⟩
 
+/-- **mismatch_cycle_ident.**  With an ident number or a parameter length the slave does not accept
+(`PrmMismatch`), the fault-free run repeats one round of `max_retry_limit + 4` visits for ever: probe
+(`Online`); `Set_Prm` — rejected by the slave (`Prm_Fault`, it stays in `Wait_Prm`) yet acknowledged by SC,
+so the master goes on; `Chk_Cfg` and its `max_retry_limit` retransmissions, each answered "SAP not
+enabled", which the master ignores; the visit that declares the peripheral `Offline` (frame count bit
+reset, so the next probe is a new request for the slave).  Events per round: `Online, Offline`;
+`ParameterError` is never raised — the master looks at diagnostics only after `Chk_Cfg` was acknowledged. -/
+theorem mismatch_cycle_ident {j : PJ} (hm : PrmMismatch j) (hp : Probing j) :
+    ∃ j', j.quiet (j.fp.maxRetry + 4) = some (j', [.online, .offline]) ∧ PrmMismatch j' ∧ Probing j' ∧
+      j'.fp = j.fp :=
+  prmm_round hm hp
+
 /-! ## Non-vacuity -/
 
 /-- A fresh master with peripheral #7 (`Ex.p7`) and the matching slave after power-on. -/
@@ -566,5 +579,17 @@ example : CfgMismatch Ex.jBad ∧ Probing Ex.jBad :=
 
 example : (Ex.jBad.quiet 8).map (fun r => (r.1.p.isRunning, r.2)) =
     some (false, [.online, .configError, .online, .configError]) := by decide +kernel
+
+/-- A slave with another ident number: hypotheses satisfiable, two rounds evaluated (retry limit 1: five
+visits each). -/
+def Ex.jId : PJ :=
+  { fp := Dp.Ex.fp, op := .operate, p := Dp.Ex.p7, s := Slave.init { Witness.cfg with ident := 0x1111 } [0xc0] }
+
+example : PrmMismatch Ex.jId ∧ Probing Ex.jId :=
+  ⟨⟨Dp.Ex.fp_ok, by decide, Ex.good.pinv, rfl, by decide, ⟨[1, 2, 3], rfl, Or.inr (by decide)⟩, ⟨[0x11, 0x21], rfl⟩⟩,
+   ⟨rfl, rfl, rfl⟩⟩
+
+example : (Ex.jId.quiet 10).map (fun r => (r.1.p.isRunning, r.2)) =
+    some (false, [.online, .offline, .online, .offline]) := by decide +kernel
 
 end PV.C07
